@@ -99,7 +99,7 @@ def _work(engine_name, prop, tier, seed, indices, keep_records):
     return out
 
 
-def _work_records(engine_name, prop, tier, records):
+def _work_records(engine_name, prop, tier, records, base=0):
     """Executes explicit records (e.g. the ones an engine's prepare() phase wants judged) like ordinary runs."""
     faulthandler.enable()
     eng = _engine(engine_name)
@@ -111,7 +111,7 @@ def _work_records(engine_name, prop, tier, records):
                 oc = eng.execute(rec, state)
             except Exception:
                 oc = {"harness_error": traceback.format_exc()}
-            summ = {"i": -(k + 1), "run_seed": 1000000 + k, "record": rec}
+            summ = {"i": -(base + k + 1), "run_seed": 1000000 + base + k, "record": rec}
             summ.update(oc)
             out.append(summ)
     finally:
@@ -317,8 +317,8 @@ def run_check(engine_name, prop, tier, seed):
     with _pool() as ex:
         futs = [ex.submit(_work, engine_name, prop, tier, seed, c, keep) for c in chunks]
         extra_records = (prep or {}).pop("extra_records", []) if isinstance(prep, dict) else []
-        if extra_records:
-            futs.append(ex.submit(_work_records, engine_name, prop, tier, extra_records))
+        for b in range(0, len(extra_records), 8):
+            futs.append(ex.submit(_work_records, engine_name, prop, tier, extra_records[b:b + 8], b))
             chunks = chunks + [[-1]]
         for f, c in zip(futs, chunks):
             remaining = deadline - common.now()
